@@ -9,7 +9,7 @@ import nodecheck
 from nodecheck import Obs, kv, parse_msg, parse_cfg
 
 PROP = "C17"
-MODULES = ["DV.Properties.C17", "DV.Properties.ConfigTie"]
+MODULES = ["DV.Properties.C17", "DV.Properties.C17One", "DV.Properties.ConfigTie"]
 KEEP = {"OUT": None, "APP": None}
 
 
